@@ -718,3 +718,110 @@ var reuseProp = h.Define(P, "reuse", func(t *rapid.T) ReuseCase {
 }, runReuse)
 
 func TestReuse(t *testing.T) { reuseProp.Check(t) }
+
+// ---------- deep nesting ----------
+
+// DeepCase: a leaf of known truth under Depth wrappers taken cyclically from W
+// (n: not, a: and[x], A: and[taut, x], o: or[x], O: or[contra, x], q: all over [data], Q: any over [data]).
+// Every selector resolves, so Match == PartialMatch == the classical value, whatever the depth.
+type DeepCase struct {
+	Depth   int    `json:"depth"`
+	W       string `json:"w"`
+	Leaf    bool   `json:"leaf"`
+	ViaCtor bool   `json:"via_ctor"`
+}
+
+var deepDepths = []int{1, 2, 3, 5, 8, 13, 16, 17, 31, 32, 33, 63, 64, 65, 100, 127, 128, 129, 130, 131, 200, 255, 256, 257, 300, 511, 512, 513, 1000, 1023, 1024, 1025, 2000}
+
+func runDeep(c *h.Ctx, dc DeepCase) {
+	if dc.Depth < 1 || len(dc.W) == 0 {
+		return
+	}
+	sentinel := val.Str("zz-never-§")
+	one, two := val.Int(1), val.Int(2)
+	taut := pol.Stmt{Op: "not", Sub: []pol.Stmt{{Op: "==", Sel: sel.Sel{{Kind: "id"}}, Lit: &sentinel}}}
+	contra := pol.Stmt{Op: "==", Sel: sel.Sel{{Kind: "id"}}, Lit: &sentinel}
+	st := pol.Stmt{Op: "==", Sel: sel.Sel{{Kind: "id"}}, Lit: &one}
+	data := one
+	if !dc.Leaf {
+		data = two
+	}
+	want := dc.Leaf
+	nots := 0
+	for i := 0; i < dc.Depth; i++ {
+		switch dc.W[i%len(dc.W)] {
+		case 'n':
+			st = pol.Stmt{Op: "not", Sub: []pol.Stmt{st}}
+			want = !want
+			nots++
+		case 'a':
+			st = pol.Stmt{Op: "and", Sub: []pol.Stmt{st}}
+		case 'A':
+			st = pol.Stmt{Op: "and", Sub: []pol.Stmt{taut, st}}
+		case 'o':
+			st = pol.Stmt{Op: "or", Sub: []pol.Stmt{st}}
+		case 'O':
+			st = pol.Stmt{Op: "or", Sub: []pol.Stmt{contra, st}}
+		case 'q':
+			st = pol.Stmt{Op: "all", Sel: sel.Sel{{Kind: "id"}}, Sub: []pol.Stmt{st}}
+			data = val.List(data)
+		default:
+			st = pol.Stmt{Op: "any", Sel: sel.Sel{{Kind: "id"}}, Sub: []pol.Stmt{st}}
+			data = val.List(data)
+		}
+	}
+	c.P.Class(fmt.Sprintf("deep/depth<=%d", bucket(dc.Depth)))
+	p := pol.Policy{st}
+	bp, err := p.Build(!dc.ViaCtor)
+	if err != nil {
+		c.P.Class("deep/build-error")
+		c.Logf("deep policy rejected at depth %d: %v", dc.Depth, err)
+		return
+	}
+	nd := data.Node()
+	var m, pm bool
+	if pn, v, _ := h.Try(func() { m, _ = bp.Match(nd); pm, _ = bp.PartialMatch(nd) }); pn {
+		c.P.PanicSeen()
+		c.Fail("C11/panic", "Match/PartialMatch panicked on a policy nested %d deep: %v", dc.Depth, v)
+		return
+	}
+	if m != want || pm != want {
+		c.Fail("C11/classical/deep", "policy nested %d deep (wrappers %q cyclically, %d nots, leaf %v): Match=%v PartialMatch=%v, classical value %v", dc.Depth, dc.W, nots, dc.Leaf, m, pm, want)
+	}
+	c.P.NonTrivial([]any{"deep", dc.Depth, dc.W, dc.Leaf, dc.ViaCtor}, map[string]any{"deep_nesting": dc.Depth, "wrappers": dc.W, "leaf": dc.Leaf, "classical": want, "match": m})
+}
+
+func bucket(d int) int {
+	for _, b := range []int{4, 16, 64, 128, 256, 512, 1024} {
+		if d <= b {
+			return b
+		}
+	}
+	return 4096
+}
+
+var deepProp = h.Define(P, "deep", func(t *rapid.T) DeepCase {
+	dc := DeepCase{Leaf: rapid.Bool().Draw(t, "leaf"), ViaCtor: rapid.Bool().Draw(t, "ctor")}
+	if rapid.Bool().Draw(t, "boundary") {
+		dc.Depth = rapid.SampledFrom(deepDepths).Draw(t, "depthb")
+	} else {
+		dc.Depth = rapid.IntRange(1, 600).Draw(t, "depth")
+	}
+	dc.W = rapid.StringOfN(rapid.SampledFrom([]rune("nnnaAoOqQ")), 1, 5, -1).Draw(t, "w")
+	return dc
+}, runDeep)
+
+func TestDeep(t *testing.T) { deepProp.Check(t) }
+
+// TestDeepBoundaries: every listed depth x {all-not, not+and, not+any} x leaf truth x build path.
+func TestDeepBoundaries(t *testing.T) {
+	for _, d := range deepDepths {
+		for _, w := range []string{"n", "na", "nQ", "AnO", "qn"} {
+			for _, leaf := range []bool{true, false} {
+				for _, ctor := range []bool{false, true} {
+					deepProp.One(t, DeepCase{Depth: d, W: w, Leaf: leaf, ViaCtor: ctor})
+				}
+			}
+		}
+	}
+}
